@@ -8,15 +8,26 @@ pub mod driver;
 pub mod findings;
 pub mod isolate;
 pub mod pipeline;
+pub mod proc;
 pub mod prop;
 pub mod util;
 
+pub mod c08;
+pub mod c11;
+pub mod c12;
+pub mod c01;
+pub mod cprog;
 pub mod c13;
+pub mod c15;
+pub mod c16;
+pub mod c17;
+pub mod nsgen;
+pub mod progs;
 
 use driver::Check;
 
 pub fn checks() -> Vec<&'static dyn Check> {
-    vec![&c13::C13]
+    vec![&c08::C08, &c01::C01, &cprog::C02, &cprog::C03, &cprog::C04, &cprog::C05, &c11::C11, &c12::C12, &c13::C13, &c15::C15, &c16::C16, &c17::C17]
 }
 
 pub fn find_check(id: &str) -> Option<&'static dyn Check> {
